@@ -34,7 +34,7 @@ ENV.setdefault("CARGO_TERM_COLOR", "never")
 LEVEL = {
     "C17": "model_checking", "C18": "model_checking", "C36": "model_checking",
     "C06": "model_checking", "C16": "model_checking", "C32": "model_checking",
-    "C21": "model_checking", "C19": "translation_validation",
+    "C21": "model_checking", "C19": "translation_validation", "C03": "translation_validation",
 }
 
 
@@ -397,6 +397,9 @@ def main():
         if a.prop == "C19":
             import tv_check
             rc = tv_check.run_c19(a.tier, seed, write_evidence, only)
+        elif a.prop == "C03":
+            import tv_check
+            rc = tv_check.run_c03(a.tier, seed, write_evidence, only)
         elif a.prop == "C18":
             import tv_check
             # (a) wide_* helpers by Kani, (b) the Cranelift IR the JIT emits vs RTL terms by SMT miters
